@@ -9,3 +9,27 @@ pub fn cone_flags(solver: &DefaultSolver<f64>) -> (bool, bool) {
         solver.cones.allows_primal_dual_scaling(),
     )
 }
+
+/// Raw write to the solver's print target through the same `std::io::Write` implementation
+/// the progress printer uses (C20: routing model).
+pub fn print_target_write(solver: &mut DefaultSolver<f64>, bytes: &[u8]) -> std::io::Result<()> {
+    use std::io::Write;
+    solver.info.stream.write_all(bytes)?;
+    solver.info.stream.flush()
+}
+/// kind of the current print target: 0 stdout, 1 file, 2 buffer, 3 stream, 4 sink
+pub fn print_target_kind(solver: &DefaultSolver<f64>) -> u8 {
+    use crate::io::PrintTarget;
+    match solver.info.stream {
+        PrintTarget::Stdout(_) => 0,
+        PrintTarget::File(_) => 1,
+        PrintTarget::Buffer(_) => 2,
+        PrintTarget::Stream(_) => 3,
+        PrintTarget::Sink(_) => 4,
+    }
+}
+/// replace the solver's info by its clone (exercises `PrintTarget::clone`)
+pub fn info_replace_by_clone(solver: &mut DefaultSolver<f64>) {
+    let c = solver.info.clone();
+    solver.info = c;
+}
